@@ -3,6 +3,7 @@ From RRE Require Import Base.Sx Model.KB Model.KBConc Proofs.KBProofs Proofs.KBR
 From Coq Require Import Permutation.
 From Coq Require Import Sorting.Sorted.
 Open Scope Z_scope.
+From RRE Require Import Generated.Consts.
 From RRE Require Import Properties.C15.
 Check (C15_duplicate_rejected : forall k n sal tag p,
   idx_get (index k) n = Some p -> step k (Add n sal tag) = (k, RBool false)).
@@ -12,6 +13,7 @@ Check (C15_version_grows : forall k o,
 Check (C15_version_monotone : forall k o, version k <= version (fst (step k o))).
 Check (C15_listing_descending : forall ops, StronglySorted desc (rules (exec init ops))).
 Check (C15_lock_order : lock_order_ok = true).
+Check (C15_source_vector_operations : kb_add_is_push_then_stable_sort && kb_remove_is_vec_remove = true).
 Check (C15_sequential_refinement : forall ops, run_from init ops = srun_from sinit ops).
 Check (C15_spec_listing : forall s, NoDup (map s_seq (srules s)) ->
   Permutation.Permutation (slisting s) (map s_rule (srules s))
